@@ -256,6 +256,87 @@ let future_case t impl_line =
       | Some _ -> (match List.filter_map (fun (_, _, x) -> x) rs with [] -> "ACCEPT" | x :: _ -> x)) in
   model ^ " ## " ^ spec
 
+
+(* ---------------------------------------------------------------- several futures / posted requests
+   X P M multi pay wrap salt nslots actor script
+   model observation (actor rank; the others '-'): one token per step  <step><result>/<requests posted in MPI>  and E/<n> after the
+   destruction of all slots - or DROP-<reason> when the script is ill-formed, would block, or would race with a message arrival.
+   oracle (with impl.out): the impl's tokens against the specification: the result of each call, and the number of posted
+   requests = the number of requests the live futures stand for (theorem C19_requests_owned); 0 at the end. *)
+let xcase t impl_line =
+  let p = int_of_string t.(1) and pay = t.(4) and erased = t.(5) = "e" and salt = int_of_string t.(6)
+  and nslots = int_of_string t.(7) and actor = int_of_string t.(8) in
+  let steps = List.filter (fun s -> s <> "") (split '-' t.(9)) in
+  let kind = (match pay with "j" | "w" -> C19_BRef | _ -> C19_BValue) in
+  let data v = if pay = "i" || pay = "j" then Printf.sprintf "[%d]" v else Printf.sprintf "[%d,%d,%d]" (10 * v) (10 * v + 1) (10 * v + 2) in
+  let d c = Char.code c - 48 in
+  (* steps -> model operations (messages and handles are numbered in order) *)
+  let nmsg = ref 0 and npost = ref 0 in
+  let op_of st = (match st.[0] with
+      | 'S' -> incr nmsg; C19_XSend (nat_of_int (100 * (salt + 1) + !nmsg))
+      | 'p' -> incr npost; C19_XPost (false, O, nat_of_int (d st.[1]))
+      | 'q' -> let h = !npost in incr npost; C19_XPost (true, nat_of_int (7000 + h), nat_of_int (d st.[1]))
+      | 'c' -> C19_XMoveCtor (nat_of_int (d st.[1]), nat_of_int (d st.[2]))
+      | 'a' -> C19_XAssign (nat_of_int (d st.[1]), nat_of_int (d st.[2]))
+      | 'x' -> C19_XDestroy (nat_of_int (d st.[1]))
+      | 'v' -> C19_XValid (nat_of_int (d st.[1])) | 'r' -> C19_XReady (nat_of_int (d st.[1]))
+      | 'w' -> C19_XWait (nat_of_int (d st.[1])) | 'g' -> C19_XGet (nat_of_int (d st.[1]))
+      | _ -> failwith ("xop " ^ st)) in
+  let ops = List.map op_of steps in
+  let res_str = function
+    | C19_XRBool true -> "1" | C19_XRBool false -> "0" | C19_XRUnit -> "." | C19_XRData v -> data (int_of_nat v)
+    | C19_XRInvalid -> "X" | C19_XRBlocks -> "BLOCKS" | C19_XRDangling -> "DANGLING" | C19_XRSkip -> "?" in
+  (* walk through the script: drop reasons, tokens with the pool size (model) and with the owned count (specification) *)
+  let drop = ref "" in
+  let rec walk st steps ops = match steps, ops with
+    | s :: sr, o :: orest ->
+      let infl = List.map int_of_nat (c19_xinflight st) and unexp = st.c19_xunexp in
+      let slot_req i = (match List.nth_opt st.c19_xslots i with Some (C19_SObj f) -> (match f.c19_xrq with Some h -> Some (int_of_nat h) | None -> None) | _ -> None) in
+      (if infl <> [] then (match o with
+           | C19_XSend _ | C19_XValid _ -> ()
+           | C19_XWait i | C19_XGet i -> (match slot_req (int_of_nat i) with Some h when List.mem h infl -> () | _ -> if !drop = "" then drop := "RACY")
+           | _ -> if !drop = "" then drop := "RACY"));
+      (if unexp <> [] then (match o with
+           | C19_XSend _ | C19_XValid _ | C19_XPost (false, _, _) -> ()
+           | _ -> if !drop = "" then drop := "RACY"));
+      let (r, st') = c19_xstep true erased kind o st in
+      (match r with C19_XRBlocks -> if !drop = "" then drop := "BLOCKS" | C19_XRSkip -> if !drop = "" then drop := "ILLFORMED"
+                  (* get() on a moved-from MPIFuture<T&> (still valid: known finding F-C19-2) hands out the buffer of an operation that
+                     has delivered nothing yet: the content is whatever the caller's variable holds - not compared *)
+                  | C19_XRData O -> if !drop = "" then drop := "STALE"
+                  | C19_XRDangling -> failwith "dangling request in the model" | _ -> ());
+      let npool = List.length st'.c19_xpool and nown = List.length (c19_owned st'.c19_xslots) in
+      (s ^ res_str r, npool, nown) :: walk st' sr orest
+    | _, _ ->
+      let st' = c19_xrun true erased kind (List.init nslots (fun i -> C19_XDestroy (nat_of_int i))) st in
+      [("E", List.length st'.c19_xpool, List.length (c19_owned st'.c19_xslots))] in
+  let items = walk (c19_xinit (nat_of_int nslots)) steps ops in
+  let model_actor = if !drop <> "" then "DROP-" ^ !drop else String.concat " " (List.map (fun (s, np, _) -> Printf.sprintf "%s/%d" s np) items) in
+  let model = String.concat " | " (List.init p (fun r -> if r = actor then model_actor else "-")) in
+  let spec = (match impl_line with
+      | None -> "-"
+      | Some l ->
+        let ranks = Array.of_list (List.map String.trim (split '|' l)) in
+        if Array.length ranks <> p then Printf.sprintf "REJECT r%d unparsable-or-incomplete" actor
+        else begin
+          let toks = List.filter (fun s -> s <> "") (split ' ' ranks.(actor)) in
+          let expected = List.map (fun (s, _, no) -> (s, no)) items in
+          let rec cmp i toks exp = match toks, exp with
+            | [], [] -> "ACCEPT"
+            | tk :: tr, (s, no) :: er ->
+              (match String.rindex_opt tk '/' with
+               | None -> Printf.sprintf "REJECT r%d unparsable-or-incomplete" actor
+               | Some j ->
+                 let res = String.sub tk 0 j and n = (try int_of_string (String.sub tk (j + 1) (String.length tk - j - 1)) with _ -> -1) in
+                 if res <> s then Printf.sprintf "REJECT r%d result item%d %s (the specification prescribes %s)" actor i tk s
+                 else if n <> no then Printf.sprintf "REJECT r%d posted item%d %s (%d request(s) posted in MPI, the live futures stand for %d)" actor i tk n no
+                 else cmp (i + 1) tr er)
+            | [], (s, _) :: _ -> Printf.sprintf "REJECT r%d result item%d missing (the specification prescribes %s)" actor i s
+            | tk :: _, [] -> Printf.sprintf "REJECT r%d result item%d %s (nothing expected)" actor i tk in
+          cmp 0 toks expected
+        end) in
+  model ^ " ## " ^ spec
+
 let () =
   let ic = open_in Sys.argv.(1) in
   let impl = if Array.length Sys.argv > 2 then Some (open_in Sys.argv.(2)) else None in
@@ -268,6 +349,7 @@ let () =
         | "Q" -> seq_case t
         | "N" | "O" -> nested_case t
         | "F" -> future_case t il
+        | "X" -> xcase t il
         | _ -> "UNKNOWN-CASE ## -")
       with Failure m -> "MODEL-ERROR " ^ m ^ " ## -" | Invalid_argument m -> "MODEL-ERROR " ^ m ^ " ## -") in
     print_endline out
